@@ -79,7 +79,10 @@ Judge(c, s, e) ==
                      << Len(e.trees) = Len(e.roots) /\ \A k \in 1..Len(e.trees) : e.roots[k] \in sets[k] /\ sets[k] \in comps
                         /\ Len(e.trees[k]) = Cardinality(sets[k]), "each_tree_spans_its_component_once" >>,
                      << PairSet(e.edges) \subseteq { Key(p[1], p[2]) : p \in G.A } /\ Len(e.edges) = G.n - Cardinality(comps)
-                        /\ IsAcyclic(G.n, PairSet(e.edges)), "forest_edges_span_every_component" >> >>, cls, "", s)
+                        /\ IsAcyclic(G.n, PairSet(e.edges)), "forest_edges_span_every_component" >>,
+                     << e.edges2 = e.edges, "forest_edges_read_the_same_twice" >>,
+                     << Len(e.tedges) = Len(e.trees) /\ \A k \in 1..Len(e.trees) : Len(e.tedges[k]) = Len(e.trees[k]) - 1
+                        /\ \A p \in PairSet(e.tedges[k]) : p[1] \in sets[k] /\ p[2] \in sets[k], "each_tree_keeps_its_own_edges" >> >>, cls, "", s)
     [] OTHER -> Bad("unknown_operation", e.op, "", s)
 
 W0 == INSTANCE Walker
